@@ -676,6 +676,41 @@ def sql_modulo_tables(program, res, rule="C05-S2", dialects=None):
     res.expect_count(rule, "generic modulo templates evaluated", n, 10 if dialects is None else 3 * len(dialects))
 
 
+def sql_template_grouping_rule(program, res, rule="C05-S2", dialects=None):
+    """A formatter pastes the SQL of its operands into a template.  An operand rendered with want_inline_parens=False comes back bare (`a + b`): next
+    to a `*`, `/`, `%` of the template, or after its `-`, SQL's precedence regroups it — `(a + b) %/% c` written as `(X / NULLIF(1.0 * Y, 0))` with a
+    bare X computes a + b / c.  Such an operand has to sit in a delimited place (function argument, CAST … AS) or be rendered with parentheses."""
+    seen = set()
+    n = 0
+    for mod_, cls_ in sqlexpr.DIALECTS:
+        if dialects is not None and cls_ not in dialects:
+            continue
+        d_ = sqlexpr.Dialect(program, mod_, cls_)
+        for op, entry in sorted(d_.formatters.items()):
+            fn = d_.formatter_func(entry)
+            if fn is None or id(fn) in seen:
+                continue
+            seen.add(id(fn))
+            for t in sqlexpr.fold_function(fn):
+                for i, pc in enumerate(t):
+                    if not isinstance(pc, sqlexpr.ArgPiece):
+                        continue
+                    n += 1
+                    if pc.parens is True:
+                        continue
+                    prev = t[i - 1][1] if i > 0 and t[i - 1][0] == "lit" else ""
+                    nxt = t[i + 1][1] if i + 1 < len(t) and t[i + 1][0] == "lit" else ""
+                    pl, nl = prev.rstrip()[-1:], nxt.lstrip()[:1]
+                    if pl in ("*", "/", "%", "-") or nl in ("*", "/", "%"):
+                        res.fail(rule, f"{_formatter_owner(program, fn)}:{getattr(fn, 'name', 'lambda')}", f"template-operand-ungrouped:{op}",
+                                 f"`{op}` is emitted as `{sqlexpr.render(t)[:70]}` with operand {pc[1]} rendered bare (want_inline_parens=False) next to `{pl if pl in '*/%-' and pl else nl}`: "
+                                 f"an operand that is itself a sum, `(a + b) {op} c`, is regrouped by SQL's precedence and computes another value than Pandas",
+                                 f"data_algebra/{_formatter_owner(program, fn)}.py", getattr(pc.node, "lineno", 0))
+                    else:
+                        res.ok(rule, f"{cls_} `{op}`: operand {pc[1]} is rendered bare in a delimited place (`…{prev.rstrip()[-8:]}▮{nxt.lstrip()[:8]}…`)", nontrivial=False)
+    res.expect_count(rule, "operand places in SQL templates", n, 40 if dialects is None else 10)
+
+
 def _formatter_owner(program, fn) -> str:
     for m in program.modules.values():
         for f in m.functions.values():
@@ -1126,6 +1161,7 @@ def run(program, res, tier):
     sql_floor_division_rule(program, res)
     sqlite_arithmetic_tables(program, res)
     sql_modulo_tables(program, res)
+    sql_template_grouping_rule(program, res)
     res.rule("C05-S8", "Pandas: helpers that tell columns from scalars know every column type the implementations return")
     _s8_column_operand_kinds(program, res)
     masked_condition_rule(program, res)
